@@ -711,6 +711,10 @@ func (s *State) applyFunction(name string, fn object.Object, args []object.Objec
 	curState := s.env
 	s.env = nenv
 	oldOut := s.Out
+	if s.callDepth == 0 {
+		s.callerOut = oldOut
+	}
+	s.callDepth++
 	buf := bytes.Buffer{}
 	s.Out = &buf
 	// This is 0 as the env is new, but... we just want to make sure there is
@@ -722,6 +726,7 @@ func (s *State) applyFunction(name string, fn object.Object, args []object.Objec
 	// restore the previous env/state.
 	s.env = curState
 	s.Out = oldOut
+	s.callDepth--
 	var output []byte
 	if buf.Len() > 0 {
 		output = buf.Bytes()
